@@ -34,6 +34,11 @@ class SVRPAdapter(RoutingAdapter):
     reward_td = "reset"
     shard = 150
     tiny = 3
+    # keys of the step output compared with the row model after every step in C02 / C04 (Harness/HSVRP.v book_obs)
+    book_keys = (("current_node", "int"), ("current_tech", "int"), ("visited", "bits"))
+    book_fn = "check_book"
+    book_type = "svrp_book"
+    _defer_batches = True        # one batched-checker stage for the corrupted and the hand-built lists together (extra_c06)
 
     def variants(self, tier):
         if tier == "quick":
@@ -87,6 +92,10 @@ class SVRPAdapter(RoutingAdapter):
                             bad.add(k)
                     if bad == {zeros}:
                         sig += "(unchecked-last-route)"
+                    elif bad and min(bad) >= m:
+                        # every offending route comes after m depot visits: the checker clamps the technician index
+                        # to the last technician instead of refusing a route that no technician is left to drive
+                        sig += "(route-after-the-last-technician)"
         except Exception:
             pass
         return sig
@@ -252,6 +261,51 @@ class SVRPAdapter(RoutingAdapter):
                     total["%s[%s]" % (q, mode)] = total.get("%s[%s]" % (q, mode), 0) + v
         return total
 
+    # ---------------------------------------------------------------- C06: hand-built lists with ONE unmet skill, placed by route
+    def extra_c06(self, ctx, tier, items):
+        """the generic single-fault corruptions and batches (vt/envs/_base.py), then hand-built lists in which exactly one
+        customer x is served by a technician k whose skill is too low -- `[0]*k + [x] + [0]*(m-1-k) + everybody else`
+        (the others ride with the last technician, who can serve everybody), k = 0 .. m-2, open and closed -- alone and as
+        rows (index 0, >= 1) of batches next to valid rows of other instances: the fault sits right after an early depot
+        visit, i.e. where a checker loop that confuses batch row and position would not look"""
+        from vt.envs import _handsol
+        out = super().extra_c06(ctx, tier, items) or {}
+        rng = ctx.rng
+        triples, seen = [], set()
+        for it in items:
+            if it.batch != "solo" or not it.ep.complete:
+                continue
+            key = (str(it.variant), str(sorted((q, it.td_in[q].reshape(-1).tolist()) for q in it.td_in.keys())))
+            if key in seen:
+                continue
+            seen.add(key)
+            techs = [float(v) for v in it.td_reset["techs"][0].reshape(-1).tolist()]
+            skills = [float(v) for v in it.td_reset["skills"][0].reshape(-1).tolist()]
+            n, m = len(skills), len(techs)
+            triples.append((it, "mask-made", list(it.ep.actions)))
+            for k in range(m - 1):
+                xs = [j for j in range(1, n + 1) if skills[j - 1] > techs[k]]
+                if not xs:
+                    continue
+                x = rng.choice(xs)
+                rest = [j for j in range(1, n + 1) if j != x]
+                rng.shuffle(rest)
+                base = [0] * k + [x] + [0] * (m - 1 - k) + rest
+                triples.append((it, "one-unmet-skill-in-route-%d" % k, base))
+                triples.append((it, "one-unmet-skill-in-route-%d+closed" % k, base + [0]))
+            if len(triples) > (70 if tier == "quick" else 400):
+                break
+        out.update(_handsol.check_solutions(self, ctx, tier, triples, "handbuilt"))
+        return out
+
+    def batch_priority(self, row):
+        """batched checker calls: the hand-built lists whose single unmet skill sits in a MIDDLE route (right after an early
+        depot visit) first -- that is where a loop that confuses batch row and position does not look"""
+        kind = row[1]
+        if kind.startswith("one-unmet-skill-in-route-") and not kind.startswith("one-unmet-skill-in-route-0"):
+            return 0
+        return 1
+
     # ---------------------------------------------------------------- C06 corruptions
     def corruptions(self, rng, acts, n):
         out = super().corruptions(rng, acts, n)
@@ -268,6 +322,8 @@ class SVRPAdapter(RoutingAdapter):
         out.append(("single-route+depot", b + [0]))
         out.append(("depot-first", [0] + b))
         out.append(("two-depots-first", [0, 0] + b))
+        # every customer in a route that starts after more depot visits than there are technicians (m <= 4 here), closed
+        out.append(("five-depots-first+closed", [0] * 5 + b + [0]))
         return out
 
 
